@@ -142,6 +142,8 @@ pub struct Variable {
     pub shadowed: Option<Id<Variable>>,
     pub is_self: bool,
     pub value: Option<AssignedValue>,
+    /// Stands for a global the file assigns (created by hoisting), not for a declaration
+    pub is_global: bool,
 }
 
 #[derive(Clone, Debug, PartialEq, Eq)]
@@ -599,6 +601,7 @@ impl ScopeVisitor {
 
         if self.find_variable(&name).is_none() {
             let id = self.define_name_full(&name, identifier, write_expr);
+            self.scope_manager.variables[id].is_global = true;
 
             for (_, reference) in &mut self.scope_manager.references {
                 if reference.read && reference.name == name && reference.resolved.is_none() {
